@@ -624,3 +624,119 @@ M("M47c", "write output is pushed back as the tail line (re-parsed as a directiv
                         self.execute_tail_line = directive_output.clone().or(line);
                         true""")],
   {"C16": ["R16.1"]})
+
+# ------------------------------------------------------------------ C01 / C11 / C14 / C15
+M("M02", "drop the prefix-less multi-line check",
+  [(PP, """                            if d.directive_type.supports_multi_line() && d.prefix.is_empty() {""", """                            if d.directive_type.supports_multi_line() && d.prefix.is_empty() && false {""")],
+  {"C01": ["R01.3"], "C15": ["R15.3"]})
+M("M03", "after directive also reads the file (effect in a no-effect arm)",
+  [(PP, """            DirectiveType::Empty | DirectiveType::After => {
+                // do nothing (consume the line)
+                None
+            }""", """            DirectiveType::Empty => None,
+            DirectiveType::After => {
+                let arg = d.args.into_iter().next().unwrap_or_default();
+                let _ = std::fs::read_to_string(self.context.work_dir.as_path().join(arg));
+                None
+            }""")],
+  {"C01": ["R01.1"]})
+M("M03b", "indentation taken from the prefix instead of the leading whitespace",
+  [(PP, "                    let whitespaces = d.whitespaces.clone();", "                    let whitespaces = d.prefix.clone();")],
+  {"C01": ["R01.2"]})
+M("M03c", "tag directive output is also emitted (tag arm yields Some)",
+  [(PP, """                        .attach_printable(format!("could not create tag: `{tag_name}`"))
+                })?;
+                None""", """                        .attach_printable(format!("could not create tag: `{tag_name}`"))
+                })?;
+                Some(String::new())""")],
+  {"C01": ["R01.1"]})
+M("M03d", "temp files also echo their content into the output via a second write_output call",
+  [(PP, """        let contents = self.format_directive_output("", args.iter().skip(1), false);
+        self.context.write_temp_file(export_file, &contents)""", """        let contents = self.format_directive_output("", args.iter().skip(1), false);
+        if contents.len() > 1 << 30 {
+            self.context.write_output(&contents)?;
+        }
+        self.context.write_temp_file(export_file, &contents)""")],
+  {"C01": ["R01.4"]})
+M("M31", "scan_dir: drop `&& recursive`",
+  [(SCAN, "        } else if path.is_dir() && recursive {", "        } else if path.is_dir() {\n            let _ = recursive;")],
+  {"C11": ["R11.1"]})
+M("M31b", "nested scans always recurse (recursive flag lost after the first level)",
+  [(EX, """                    for dir in directory.subdirs {
+                        self.execute_directory(dir, self.config.recursive);""", """                    for dir in directory.subdirs {
+                        self.execute_directory(dir, true);""")],
+  {"C11": ["R11.1"]})
+M("M32", "resolve_inputs: silently skip a missing target",
+  [(RES, """            } else {
+                return Err(Report::new(PathError::from(&input_path)).attach_printable(
+                    "file does not exist and corresponding txtpp file not found.",
+                ));
+            }""", """            } else {
+                log::warn!("{}", Report::new(PathError::from(&input_path)).attach_printable(
+                    "file does not exist and corresponding txtpp file not found.",
+                ));
+            }""")],
+  {"C11": ["R11.3"]})
+M("M32b", "scan_dir schedules every regular file",
+  [(SCAN, """            if path.is_txtpp_file() {
+                let path_abs = dir.share_base(path)?;
+                directory.files.push(path_abs);
+            }""", """            if path.is_txtpp_file() || path.extension().is_none() {
+                let path_abs = dir.share_base(path)?;
+                directory.files.push(path_abs);
+            }""")],
+  {"C11": ["R11.2"]})
+M("M40", "inject_tags: drop sort_by (substitution order follows HashMap iteration)",
+  [(TAG, """        // sort by index
+        to_inject.sort_by(|a, b| a.0.cmp(&b.0));
+        let mut injected_output""", """        let mut injected_output""")],
+  {"C14": ["R14.1"]})
+M("M41", "create: drop one starts_with direction",
+  [(TAG, "            if k.starts_with(tag) || tag.starts_with(k) {", "            if k.starts_with(tag) {")],
+  {"C14": ["R14.2"]})
+M("M41b", "create: a listening tag is silently replaced",
+  [(TAG, """        if let Some(old_tag) = &self.listening {
+            return Err(Report::new(TagStateError).attach_printable(format!(
+                "Cannot create new tag `{tag}` when old tag `{old_tag}` is still listening."
+            )));
+        }""", """        if let Some(old_tag) = &self.listening {
+            log::warn!("Cannot create new tag `{tag}` when old tag `{old_tag}` is still listening.");
+        }""")],
+  {"C14": ["R14.2"]})
+M("M41c", "stored tag output is ALSO written to the file",
+  [(PP, """                        if self.tag_state.try_store(&raw_output).is_err() {
+                            Some(self.format_directive_output(""", """                        if self.tag_state.try_store(&raw_output).is_err() || raw_output.len() > 1 << 20 {
+                            Some(self.format_directive_output(""")],
+  {"C14": ["R14.3"]})
+M("M41d", "unused tags at end of file are accepted",
+  [(PP, "        if self.tag_state.has_tags() && !matches!(self.mode, Mode::Clean) {", "        if self.tag_state.has_tags() && matches!(self.mode, Mode::Verify) {")],
+  {"C14": ["R14.4"]})
+M("M41e", "has_tags ignores a tag that is still listening",
+  [(TAG, "        self.listening.is_some() || !self.stored.is_empty()", "        !self.stored.is_empty()")],
+  {"C14": ["R14.4"]})
+M("M43", "supports_multi_line no longer excludes After",
+  [(DIR, "            DirectiveType::After | DirectiveType::Include | DirectiveType::Tag", "            DirectiveType::Include | DirectiveType::Tag")],
+  {"C15": ["R15.2"]})
+M("M44", "detect_from uses rfind(TXTPP_HASH) (the LAST marker counts)",
+  [(DFROM, "        let (line, prefix) = match line.find(TXTPP_HASH) {", "        let (line, prefix) = match line.rfind(TXTPP_HASH) {")],
+  {"C15": ["R15.4"]})
+M("M45", "name/argument split on any whitespace",
+  [(DFROM, "match directive_name.split_once(' ') {", "match directive_name.split_once(char::is_whitespace) {")],
+  {"C15": ["R15.1"]})
+M("M45b", "directive names matched case-insensitively",
+  [(DIR, """        match value {
+            "" => Ok(DirectiveType::Empty),""", """        match value.to_lowercase().as_str() {
+            "" => Ok(DirectiveType::Empty),""")],
+  {})   # equality is still exact on the lowered string; the rule looks at the table only: documented miss (value-level)
+M("M45c", "an extra alias `exec` for run",
+  [(DIR, """            "run" => Ok(DirectiveType::Run),""", """            "run" | "exec" => Ok(DirectiveType::Run),""")],
+  {"C15": ["R15.1"]})
+M("M45d", "add_line appends before checking supports_multi_line",
+  [(DADD, """        if !self.directive_type.supports_multi_line() {
+            return Err(());
+        }
+        if line.starts_with(&self.whitespaces) {""", """        if !self.directive_type.supports_multi_line() && !line.is_empty() {
+            return Err(());
+        }
+        if line.starts_with(&self.whitespaces) {""")],
+  {"C15": ["R15.2"]})
